@@ -548,6 +548,21 @@ pub fn loop_at<'a>(steps: &'a [Step], path: &[usize]) -> Option<&'a LoopSpec> {
     Some(l)
 }
 
+/// the step a probe path points at (`[si]`, or `[si, 10000 + bi, 0, ...]` inside loop bodies)
+pub fn step_at<'a>(steps: &'a [Step], path: &[usize]) -> Option<&'a Step> {
+    let mut st = steps.get(*path.first()?)?;
+    let mut rest = &path[1..];
+    while rest.len() >= 2 {
+        let bi = rest[0].checked_sub(10000)?;
+        st = match st {
+            Step::Loop(_, l) => l.body.get(bi)?,
+            _ => return None,
+        };
+        rest = &rest[2..];
+    }
+    Some(st)
+}
+
 pub fn first_line(s: &str) -> String {
     s.lines().next().unwrap_or("").chars().take(200).collect()
 }
